@@ -136,6 +136,12 @@ def gen(rng, tier):
         for off in offs:
             cases.append(ser(close, code, ct, hs, body, w=rng.choice([[], [65536], [7, 100000]]) if not body.startswith(("file", "tmp")) else [], budget=off, pend=rng.choice([0, 2])))
         cases.append(ser(close, code, ct, hs, body, flush_ok=0))
+    # ---- a body file that is cut short IN FLIGHT (after the first byte of the head went out): whatever was checked
+    # before the head, the outcome is that of a short file -- an error, never Ok with a short body
+    for (n, keep) in ((10, 0), (10, 4), (10, 9), (1, 0), (70000, 65536), (70000, 69999), (200000, 1)):
+        for close in (0, 1):
+            cases.append(ser(close, 200, "v11", [], "fileshrink:%d:g9_%d:%d" % (n, n, keep)))
+        cases.append(ser(0, 200, "none", [("x-a", "b")], "fileshrink:%d:g9_%d:%d" % (n, n + 5, keep), budget=rng.choice([None, n + 200])))
     # ---- random responses with random faults
     nrand = 600 if quick else 20000
     for _ in range(nrand):
